@@ -349,8 +349,6 @@ func (c *CheckCtx) confirm(v *Violation, scn *Scenario) (bool, *Result) {
 		if sig == v.Sig {
 			crashes++
 		}
-		j.Replay = true
-		j.Skip = append(j.Skip, joinPrefix(prefix))
 	}
 	for i := 0; i < 5; i++ {
 		p.Submit(&Job{Prop: c.Prop, Scn: scn, Prefix: v.Chosen, Replay: true, Trace: i == 4})
